@@ -1092,12 +1092,15 @@ ASSUMPTIONS = [
 ]
 OPEN = [
     "completion of earcut for every simple polygon (two-ears theorem) is not proved: earcut_conserves assumes the run is complete; proved for strictly convex rings of any size (earcut_completes_convex)",
-    "non-overlap of the earcut triangles for non-convex polygons: oracle only (exact test); proved: earcut_convex_no_overlap for strictly convex rings, and what the ear test "
-    "guarantees (isEar_iff, pointInTriangle_exact, isEar_bbox_redundant), not the geometric step 'no reflex vertex in the ear => the ear is disjoint from the rest of a simple polygon'",
+    "non-overlap of the earcut triangles: proved for every ring from ONE explicit hypothesis (earcut_no_overlap, earcut_no_holes_no_overlap, earcut_with_holes_no_overlap: the ring winds at most "
+    "once around the point, wnRing x l <= 1) for complete runs; that a simple counter-clockwise polygon satisfies the hypothesis at every point (Jordan curve theorem) is not proved; "
+    "the exact oracle keeps testing pairwise non-overlap on the real code",
     "Sutherland-Hodgman: exactness of the clipped AREA (result = intersection as point sets) is oracle only; proved: result inside every clip half-plane, inside the "
-    "convex hull of the subject, subject outside one edge => empty, subject strictly inside => unchanged, one cut conserves the signed area (clipEdge_area_split, tolerance 0); clip_idempotent not proved (vertices on a clip edge are re-cut, "
+    "convex hull of the subject, subject outside one edge => empty, subject strictly inside => unchanged, one cut and the whole clip conserve the signed area (clipEdge_area_split, clipPolygon_area_balance, tolerance 0), the cut-away parts lie outside their edge (cutOffs_outside), the result REGION (winding number) is inside every clip half-plane and inside the hull of the subject (clipPolygon_region_inside, clipPolygon_region_in_subject_hull); "
+    "the converse containment (subject ∩ clip ⊆ result) is not proved, also not for convex subjects; clip_idempotent not proved (vertices on a clip edge are re-cut, "
     "equal only up to the intersection tolerance)",
-    "ConvexClippingPolygon2d.clip_line: exactness proved for abs_tol = 0 only (with abs_tol > 0 an end point within the band is kept)",
+    "ConvexClippingPolygon2d.clip_line: exact for abs_tol = 0 (clipLineConvex_exact); for abs_tol > 0 the band statement clipLineConvex_band (nothing inside is cut away, everything returned "
+    "violates an edge by at most abs_tol in units of the side determinant) - not a statement about Euclidean distance",
     "hull: strictness needs 'not all collinear' (hull_collinear states what is returned otherwise); that every extreme input point is a hull vertex follows from "
     "hull_contains_all + hull_convex only with a separate geometric argument, not stated",
     "Greiner-Hormann area law as a statement about areas: oracle only (gh_union_intersection_partition is the combinatorial part)",
